@@ -551,6 +551,24 @@ def not_after(ctx: Ctx, f: Func, a: ast.AST, b: ast.AST) -> bool:
     if na is None or nb is None:
         return False
     if na is nb:
+        # inside one statement: evaluation order of the expression tree (operands before the operation, left to right),
+        # not source positions - inlined helper bodies carry the position of the call they replaced
+        order: Dict[int, int] = {}
+
+        def post(n: ast.AST) -> None:
+            kids = list(ast.iter_child_nodes(n))
+            if isinstance(n, (ast.ListComp, ast.SetComp, ast.GeneratorExp)):
+                kids = list(n.generators) + [n.elt]
+            elif isinstance(n, ast.DictComp):
+                kids = list(n.generators) + [n.key, n.value]
+            for k in kids:
+                post(k)
+            order[id(n)] = len(order)
+
+        root = na.ast if getattr(na, "ast", None) is not None else None
+        if root is not None and any(a is x for x in ast.walk(root)) and any(b is x for x in ast.walk(root)):
+            post(root)
+            return order[id(a)] <= order[id(b)]
         return (getattr(a, "lineno", 0), getattr(a, "col_offset", 0)) <= (getattr(b, "lineno", 0), getattr(b, "col_offset", 0))
     hdrs = []
     p = parent_of(a)
